@@ -31,7 +31,7 @@ VARIABLES
   cfg,
   fs,        \* the combinator's own fields (a record, defined by the family module)
   rd,        \* readiness: [bits, count, parent]   (parent = generation of the stored parent waker, -1 = None)
-  pc,        \* "idle" | "begin" | "scan" | "inchild" | "dropped" | "end"
+  pc,        \* "idle" | "begin" | "scan" | "inchild" | "repolled" | "dropped" | "end"
   cur,       \* the child whose poll is in progress (pc = "inchild")
   \* ---- children ----
   ans,       \* per child: "new" | "pending" | "some" | "done"
@@ -64,6 +64,7 @@ N == cfg.n
 \* optional flags (absent = FALSE): trace validation mode, the caller may present the previous waker again
 TraceMode == "trace" \in DOMAIN cfg /\ cfg.trace
 Reuse == "reuse" \in DOMAIN cfg /\ cfg.reuse
+Repollable == TraceMode \/ ("repoll" \in DOMAIN cfg /\ cfg.repoll)
 Ch == DOMAIN ans
 Sub == cfg.sub
 NeverSet == Range(cfg.never)
@@ -234,7 +235,7 @@ StaleBudget(c, k) == IF k = polls[c] - 1 THEN UNCHANGED nstale ELSE (nstale < cf
 
 \* between polls (also between the caller's decision to poll and the poll itself: another thread)
 Wake(c, k) ==
-  /\ pc \in {"idle", "dropped", "begin"}
+  /\ pc \in {"idle", "dropped", "begin", "repolled"}
   /\ Fireable(c, k)
   /\ nfire < cfg.maxFire /\ nfire' = nfire + 1
   /\ StaleBudget(c, k)
@@ -266,7 +267,7 @@ Wakes == \E c \in Ch : \E k \in 0..(polls[c] - 1) : Wake(c, k) \/ InFire(c, k) \
 ---------------------------------------------------------------------------
 (* dropping the combinator; unwinding out of a child's poll *)
 DropWith(evs) ==
-  /\ pc = "idle"
+  /\ pc \in {"idle", "repolled"}
   /\ cfg.drop \/ final \/ quiesced
   /\ pc' = "dropped"
   /\ alive' = [c \in Ch |-> FALSE]
@@ -282,12 +283,32 @@ PanicWith(evs) ==
   /\ UNCHANGED <<cfg, fs, rd, cur, ans, pend, nit, polls, handed, firedL, gen, wokenL, started, needPoll,
                  nfire, nstale, nspur, ninfire, seen, conc, quiesced>>
 
+(* One more poll after the final result (the caller breaks the Future / Stream contract; what it returns is      *)
+(* unspecified, but no child may be polled: C03).  The types that guard themselves with an assertion panic, the   *)
+(* caller then drops them; merge answers Pending from its state table.                                            *)
+RepollPanics(evs) ==
+  /\ pc = "idle" /\ final /\ Repollable
+  /\ gen' = gen + 1
+  /\ pc' = "dropped"
+  /\ alive' = [c \in Ch |-> FALSE]
+  /\ Emit(<<[e |-> "repoll", g |-> gen + 1], [e |-> "panic", at |-> "repoll"], Ev("drop")>> \o evs \o <<Ev("dropped")>>)
+  /\ UNCHANGED <<cfg, fs, rd, cur, ans, pend, nit, polls, handed, firedL, wokenL, started, final, needPoll,
+                 nfire, nstale, nspur, ninfire, seen, conc, quiesced>>
+
+RepollAnswers(r) ==
+  /\ pc = "idle" /\ final /\ Repollable
+  /\ gen' = gen + 1
+  /\ pc' = "repolled"
+  /\ Emit(<<[e |-> "repoll", g |-> gen + 1], [e |-> "reret", r |-> r]>>)
+  /\ UNCHANGED <<cfg, fs, rd, cur, ans, alive, pend, nit, polls, handed, firedL, wokenL, started, final, needPoll,
+                 nfire, nstale, nspur, ninfire, seen, conc, quiesced>>
+
 (* the wake-only executor has nothing left to do *)
 Owed == {c \in Ch : alive[c] /\ ans[c] = "pending" /\ ~firedL[c] /\ c \notin NeverSet}
 Quiesce ==
   /\ IF TraceMode
        THEN \* the harness' `settle` reports quiescence whenever its loop ends: also after the final result / the drop
-            /\ pc \in {"idle", "dropped"}
+            /\ pc \in {"idle", "dropped", "repolled"}
             /\ (pc = "dropped" \/ final \/ (started /\ ~wokenL /\ ~needPoll /\ Owed = {}))
        ELSE /\ pc = "idle" /\ started /\ ~wokenL /\ ~needPoll /\ ~quiesced /\ ~final
             /\ Owed = {}
@@ -318,7 +339,7 @@ MonitorsQuiet == m.bad = {}
 ReadinessCount == CountOK
 \* the "parent waker absent" branch of InlineWaker::wake is unreachable
 ParentPresent == (Sub /\ \E c \in Ch : polls[c] > 0) => rd.parent >= 0
-EnvTypeOK == /\ pc \in {"idle", "begin", "scan", "inchild", "dropped", "end"}
+EnvTypeOK == /\ pc \in {"idle", "begin", "scan", "inchild", "repolled", "dropped", "end"}
              /\ \A c \in Ch : ans[c] \in {"new", "pending", "some", "done"}
 
 \* export: one line per behaviour that reaches the end of a run (recorded, single-threaded ones only)
